@@ -136,7 +136,7 @@ fn clone_case<T: MaybeDynSized<Metadata = usize> + ?Sized>(ctx: &mut Ctx, key: &
 }
 
 fn run(ctx: &mut Ctx) {
-    let nmax = if ctx.quick() { 16 } else { 24 };
+    let nmax = if ctx.quick() { 16 } else { 40 };
     ctx.bound("new_boxed", format!("all splits of a marker content of total length 0..={} into 0..=4 slices (empty slices included) x header kinds TagHeader, DummyTestHeader, HeaderTagHeader, BootInformationHeader, Multiboot2BasicHeader (with checksum); every allocator call recorded", nmax));
     for n in 0..=nmax {
         let content: Vec<u8> = (0..n).map(|i| marker(i, 61)).collect();
